@@ -35,7 +35,7 @@ def run(tier, replay=None):
     validate_trace(c, tr, None, finish=False)
     c.cov["traces_validated_against_impl"] = c.cov.get("traces_validated_against_impl", 0) + walks
     c.cov["exhaustive"] = True
-    c.cov["rule"] = "complete state graph of Interner over a 4/5-value alphabet; every transition replayed on Interner<String>, an Interner whose Ord is unrelated to insertion order, Interner<Type<PortableForm>> and PortableRegistryBuilder; Type-valued elements under two bindings (structurally unrelated bodies; near misses that differ from one rich enum definition in exactly one leaf); plus seeded random walks over up to 96 values validated by TLC"
+    c.cov["rule"] = "complete state graph of Interner over a 4/5-value alphabet; every transition replayed on Interner<String>, an Interner whose Ord is unrelated to insertion order, Interner<Type<PortableForm>> and PortableRegistryBuilder; Type-valued elements under five bindings (one body per definition kind; near misses that differ from one rich enum definition in exactly one leaf; the kinds shifted so that five values reach all of them; a cross product of a few leaves under one path; definitions with several members that share a prefix); plus seeded random walks over up to 96 values validated by TLC"
     c.assumptions += ["the implementation has no state beyond elements()/finish() (what the harness projects)",
                       "Symbols for out-of-range resolve probes are taken from a larger donor interner of the same element type"]
     return c.finish()
